@@ -1,14 +1,378 @@
 package main
 
+// Integer arithmetic mode: values of 64-bit Go integer types (int, uint, int64, uint64,
+// uintptr) are SMT Int terms constrained to the type's range, with Go's wrap-around made
+// explicit ((mod r 2^64)) only where an interval analysis cannot show the result in range.
+// Narrower integer types stay bit-vectors. Used for fee/size arithmetic, where 64-bit
+// bit-vector multiplication/division by symbolic operands is out of reach of bit-blasting.
+
 import (
+	"fmt"
 	"go/token"
 	"go/types"
+	"math/big"
 )
 
-func (in *Interp) intNeg(t *Term, ty types.Type) Value { panic(engineAbort{"int mode: neg not implemented"}) }
-func (in *Interp) intBin(fr *frame, op token.Token, t types.Type, a, b *Term, yt types.Type) Value {
-	panic(engineAbort{"int mode not implemented"})
+var (
+	big0     = big.NewInt(0)
+	big1     = big.NewInt(1)
+	two63    = new(big.Int).Lsh(big1, 63)
+	two64    = new(big.Int).Lsh(big1, 64)
+	maxU64   = new(big.Int).Sub(two64, big1)
+	maxI64   = new(big.Int).Sub(two63, big1)
+	minI64   = new(big.Int).Neg(two63)
+)
+
+type ival struct{ lo, hi *big.Int }
+
+func is64(t types.Type) bool {
+	b, ok := t.Underlying().(*types.Basic)
+	if !ok {
+		return false
+	}
+	switch b.Kind() {
+	case types.Int, types.Uint, types.Int64, types.Uint64, types.Uintptr, types.UntypedInt:
+		return true
+	}
+	return false
 }
-func (in *Interp) intConv(x *Term, src, dst *types.Basic) Value {
-	panic(engineAbort{"int mode not implemented"})
+
+// wideInt reports whether values of type t are represented as SMT Int terms.
+func (in *Interp) wideInt(t types.Type) bool { return in.intMode && is64(t) }
+
+// mkInt makes a Go int/int64/uint64 constant in the current representation.
+func (in *Interp) mkInt(v int64) *Term {
+	if in.intMode {
+		return in.tb.IntConst(big.NewInt(v))
+	}
+	return in.tb.BVConst(64, uint64(v))
+}
+
+func (in *Interp) mkUint(v uint64) *Term {
+	if in.intMode {
+		return in.tb.IntConst(new(big.Int).SetUint64(v))
+	}
+	return in.tb.BVConst(64, v)
+}
+
+// termInt64 returns the value of a constant integer term of either representation.
+func termInt64(t *Term, signed bool) int64 {
+	if t.S.K == KInt {
+		if t.Big.IsInt64() {
+			return t.Big.Int64()
+		}
+		return int64(t.Big.Uint64())
+	}
+	if signed {
+		return toSigned(t.C, t.S.W)
+	}
+	return int64(t.C)
+}
+
+func typeRange(t types.Type) ival {
+	if isSigned(t) {
+		return ival{minI64, maxI64}
+	}
+	return ival{big0, maxU64}
+}
+
+func (in *Interp) ivalOf(t *Term) (ival, bool) {
+	if t.IsConst() && t.S.K == KInt {
+		return ival{t.Big, t.Big}, true
+	}
+	iv, ok := in.ivals[t]
+	return iv, ok
+}
+
+func (in *Interp) setIval(t *Term, iv ival) *Term {
+	if !t.IsConst() {
+		in.ivals[t] = iv
+	}
+	return t
+}
+
+// maskOf returns a mask of the bits that may be set in a non-negative Int term (nil = unknown).
+func (in *Interp) maskOf(t *Term) *big.Int {
+	if t.IsConst() && t.S.K == KInt {
+		if t.Big.Sign() < 0 {
+			return nil
+		}
+		return t.Big
+	}
+	if m, ok := in.masks[t]; ok {
+		return m
+	}
+	if iv, ok := in.ivals[t]; ok && iv.lo.Sign() >= 0 {
+		return new(big.Int).Sub(pow2(uint64(iv.hi.BitLen())), big1)
+	}
+	return nil
+}
+
+// intSym creates a fresh Int symbol constrained to [lo,hi].
+func (in *Interp) intSym(tag string, lo, hi *big.Int) *Term {
+	tb := in.tb
+	t := in.freshSym(tag, SInt)
+	in.addPC(tb.IBin(OILe, tb.IntConst(lo), t))
+	in.addPC(tb.IBin(OILe, t, tb.IntConst(hi)))
+	return in.setIval(t, ival{lo, hi})
+}
+
+// wrap reduces r (an exact integer result) into the range of Go type ty.
+func (in *Interp) wrap(r *Term, riv ival, haveIv bool, ty types.Type) *Term {
+	tb := in.tb
+	tr := typeRange(ty)
+	if haveIv && riv.lo.Cmp(tr.lo) >= 0 && riv.hi.Cmp(tr.hi) <= 0 {
+		return in.setIval(r, riv)
+	}
+	if r.IsConst() {
+		v := new(big.Int).Mod(r.Big, two64)
+		if isSigned(ty) && v.Cmp(maxI64) > 0 {
+			v.Sub(v, two64)
+		}
+		return tb.IntConst(v)
+	}
+	var w *Term
+	if isSigned(ty) {
+		w = tb.IBin(OISub, tb.IBin(OIMod, tb.IBin(OIAdd, r, tb.IntConst(two63)), tb.IntConst(two64)), tb.IntConst(two63))
+	} else {
+		w = tb.IBin(OIMod, r, tb.IntConst(two64))
+	}
+	return in.setIval(w, tr)
+}
+
+func minBig(xs ...*big.Int) *big.Int {
+	m := xs[0]
+	for _, x := range xs[1:] {
+		if x.Cmp(m) < 0 {
+			m = x
+		}
+	}
+	return m
+}
+func maxBig(xs ...*big.Int) *big.Int {
+	m := xs[0]
+	for _, x := range xs[1:] {
+		if x.Cmp(m) > 0 {
+			m = x
+		}
+	}
+	return m
+}
+
+func (in *Interp) intNeg(t *Term, ty types.Type) Value {
+	tb := in.tb
+	r := tb.IBin(OISub, tb.IntConst(big0), t)
+	if iv, ok := in.ivalOf(t); ok {
+		return in.wrap(r, ival{new(big.Int).Neg(iv.hi), new(big.Int).Neg(iv.lo)}, true, ty)
+	}
+	return in.wrap(r, ival{}, false, ty)
+}
+
+// toBV64 / fromBV64 move between the two representations (bitwise fallback).
+func (in *Interp) toBV64(t *Term) *Term {
+	if t.S.K == KBV {
+		return t
+	}
+	return in.tb.Int2BV(t, 64)
+}
+
+func (in *Interp) fromBV64(t *Term, signed bool) *Term {
+	tb := in.tb
+	n := tb.BV2Nat(t)
+	if !signed {
+		return in.setIval(n, ival{big0, maxU64})
+	}
+	if n.IsConst() {
+		v := new(big.Int).Set(n.Big)
+		if v.Cmp(maxI64) > 0 {
+			v.Sub(v, two64)
+		}
+		return tb.IntConst(v)
+	}
+	neg := tb.Cmp(OSlt, t, tb.BVConst(64, 0))
+	return in.setIval(tb.Ite(neg, tb.IBin(OISub, n, tb.IntConst(two64)), n), ival{minI64, maxI64})
+}
+
+func pow2(k uint64) *big.Int { return new(big.Int).Lsh(big1, uint(k)) }
+
+func (in *Interp) intBin(fr *frame, op token.Token, ty types.Type, a, b *Term, yt types.Type) Value {
+	tb := in.tb
+	signed := isSigned(ty)
+	ia, oka := in.ivalOf(a)
+	ib, okb := in.ivalOf(b)
+	both := oka && okb
+	switch op {
+	case token.ADD:
+		r := tb.IBin(OIAdd, a, b)
+		if both {
+			return in.wrap(r, ival{new(big.Int).Add(ia.lo, ib.lo), new(big.Int).Add(ia.hi, ib.hi)}, true, ty)
+		}
+		return in.wrap(r, ival{}, false, ty)
+	case token.SUB:
+		r := tb.IBin(OISub, a, b)
+		if both {
+			return in.wrap(r, ival{new(big.Int).Sub(ia.lo, ib.hi), new(big.Int).Sub(ia.hi, ib.lo)}, true, ty)
+		}
+		return in.wrap(r, ival{}, false, ty)
+	case token.MUL:
+		r := tb.IBin(OIMul, a, b)
+		if both {
+			p1, p2 := new(big.Int).Mul(ia.lo, ib.lo), new(big.Int).Mul(ia.lo, ib.hi)
+			p3, p4 := new(big.Int).Mul(ia.hi, ib.lo), new(big.Int).Mul(ia.hi, ib.hi)
+			return in.wrap(r, ival{minBig(p1, p2, p3, p4), maxBig(p1, p2, p3, p4)}, true, ty)
+		}
+		return in.wrap(r, ival{}, false, ty)
+	case token.QUO, token.REM:
+		fr.fault(tb.Not(tb.Eq(b, tb.IntConst(big0))), "div-zero")
+		nonneg := both && ia.lo.Sign() >= 0 && ib.lo.Sign() >= 0
+		if !signed || nonneg {
+			// for non-negative operands Go's truncated division is SMT div/mod
+			if op == token.QUO {
+				r := tb.IBin(OIDiv, a, b)
+				if both {
+					return in.setIval(r, ival{big0, ia.hi})
+				}
+				return in.setIval(r, typeRange(ty))
+			}
+			r := tb.IBin(OIMod, a, b)
+			if both {
+				return in.setIval(r, ival{big0, minBig(ia.hi, ib.hi)})
+			}
+			return in.setIval(r, typeRange(ty))
+		}
+		// signed, possibly negative: truncate toward zero
+		absA := tb.Ite(tb.IBin(OILt, a, tb.IntConst(big0)), tb.IBin(OISub, tb.IntConst(big0), a), a)
+		absB := tb.Ite(tb.IBin(OILt, b, tb.IntConst(big0)), tb.IBin(OISub, tb.IntConst(big0), b), b)
+		q := tb.IBin(OIDiv, absA, absB)
+		negQ := tb.Not(tb.Eq(tb.IBin(OILt, a, tb.IntConst(big0)), tb.IBin(OILt, b, tb.IntConst(big0))))
+		sq := tb.Ite(negQ, tb.IBin(OISub, tb.IntConst(big0), q), q)
+		if op == token.QUO {
+			return in.wrap(sq, ival{}, false, ty)
+		}
+		return in.wrap(tb.IBin(OISub, a, tb.IBin(OIMul, sq, b)), ival{}, false, ty)
+	case token.LSS:
+		return tb.IBin(OILt, a, b)
+	case token.LEQ:
+		return tb.IBin(OILe, a, b)
+	case token.GTR:
+		return tb.IBin(OILt, b, a)
+	case token.GEQ:
+		return tb.IBin(OILe, b, a)
+	case token.SHL, token.SHR:
+		// shift count may be of any integer type
+		if b.IsConst() {
+			k := uint64(termInt64(b, false))
+			if isSigned(yt) && termInt64(b, true) < 0 {
+				fr.fault(tb.False, "negative-shift")
+			}
+			if k >= 64 {
+				if op == token.SHR && signed {
+					return tb.Ite(tb.IBin(OILt, a, tb.IntConst(big0)), tb.IntConst(big.NewInt(-1)), tb.IntConst(big0))
+				}
+				return tb.IntConst(big0)
+			}
+			if op == token.SHL {
+				r := tb.IBin(OIMul, a, tb.IntConst(pow2(k)))
+				if oka {
+					w := in.wrap(r, ival{new(big.Int).Mul(ia.lo, pow2(k)), new(big.Int).Mul(ia.hi, pow2(k))}, true, ty)
+					if w == r {
+						if m := in.maskOf(a); m != nil {
+							in.masks[r] = new(big.Int).Lsh(m, uint(k))
+						}
+					}
+					return w
+				}
+				return in.wrap(r, ival{}, false, ty)
+			}
+			r := tb.IBin(OIDiv, a, tb.IntConst(pow2(k))) // floor division = arithmetic shift for negatives too
+			if oka {
+				return in.setIval(r, ival{new(big.Int).Rsh(ia.lo, uint(k)), new(big.Int).Rsh(ia.hi, uint(k))})
+			}
+			return in.setIval(r, typeRange(ty))
+		}
+	case token.OR, token.XOR:
+		// operands with disjoint possible bits: or == xor == add
+		if ma, mb := in.maskOf(a), in.maskOf(b); ma != nil && mb != nil && new(big.Int).And(ma, mb).Sign() == 0 {
+			r := tb.IBin(OIAdd, a, b)
+			u := new(big.Int).Or(ma, mb)
+			in.masks[r] = u
+			return in.setIval(r, ival{big0, u})
+		}
+	case token.AND:
+		// x & (2^k-1)
+		if b.IsConst() && b.S.K == KInt {
+			m := new(big.Int).Add(b.Big, big1)
+			if b.Big.Sign() >= 0 && m.BitLen() > 0 && new(big.Int).And(m, b.Big).Sign() == 0 && oka && ia.lo.Sign() >= 0 {
+				return in.setIval(tb.IBin(OIMod, a, tb.IntConst(m)), ival{big0, b.Big})
+			}
+		}
+	}
+	// bitwise fallback through bit-vectors
+	x, y := in.toBV64(a), in.toBV64(b)
+	var r *Term
+	switch op {
+	case token.AND:
+		r = tb.Bin(OBand, x, y)
+	case token.OR:
+		r = tb.Bin(OBor, x, y)
+	case token.XOR:
+		r = tb.Bin(OBxor, x, y)
+	case token.AND_NOT:
+		r = tb.Bin(OBand, x, tb.BNot(y))
+	case token.SHL, token.SHR:
+		sb := b
+		if sb.S.K == KInt {
+			if isSigned(yt) {
+				fr.fault(tb.IBin(OILe, tb.IntConst(big0), sb), "negative-shift")
+			}
+			y = tb.Int2BV(sb, 64)
+		} else {
+			if isSigned(yt) {
+				fr.fault(tb.Not(tb.Cmp(OSlt, sb, tb.zeroOf(sb.S))), "negative-shift")
+			}
+			y = tb.Zext(sb, 64)
+		}
+		if op == token.SHL {
+			r = tb.Bin(OShl, x, y)
+		} else if signed {
+			r = tb.Bin(OAshr, x, y)
+		} else {
+			r = tb.Bin(OLshr, x, y)
+		}
+	default:
+		panic(engineAbort{fmt.Sprintf("int mode: unsupported operator %v", op)})
+	}
+	return in.fromBV64(r, signed)
+}
+
+// intConvWide converts between representations; dst/src are basic integer types.
+func (in *Interp) intConvWide(x *Term, src, dst *types.Basic) Value {
+	tb := in.tb
+	srcWide, dstWide := is64(src), is64(dst)
+	switch {
+	case srcWide && dstWide:
+		// int64 <-> uint64 reinterpretation
+		if isSigned(src) == isSigned(dst) {
+			return x
+		}
+		iv, ok := in.ivalOf(x)
+		return in.wrap(x, iv, ok, dst)
+	case srcWide && !dstWide:
+		ds, _, _ := basicSort(dst)
+		return tb.Int2BV(x, int(ds.W))
+	case !srcWide && dstWide:
+		ss, ssigned, _ := basicSort(src)
+		if !ssigned {
+			return in.setIval(tb.BV2Nat(x), ival{big0, new(big.Int).Sub(pow2(uint64(ss.W)), big1)})
+		}
+		n := tb.BV2Nat(x)
+		if n.IsConst() {
+			return tb.IntConst(x.SignedBig())
+		}
+		half := pow2(uint64(ss.W) - 1)
+		neg := tb.Cmp(OSlt, x, tb.zeroOf(x.S))
+		r := tb.Ite(neg, tb.IBin(OISub, n, tb.IntConst(pow2(uint64(ss.W)))), n)
+		return in.setIval(r, ival{new(big.Int).Neg(half), new(big.Int).Sub(half, big1)})
+	}
+	panic(engineAbort{"intConvWide: not a wide conversion"})
 }
